@@ -267,7 +267,7 @@ def wrapper_text_all(grammar, gen, maxch, maxd):
     rules_of(e, {}, rules)
     types += list(rules.keys())
     return WRAP % {'maxch': maxch, 'maxd': maxd, 'preamble': '', 'grammar': repr(e), 'rids': '\n'.join(rids), 'selector': '',
-                   'types': ', '.join(types), 'selname': 'tao::pegtl::parse_tree::internal::store_all', 'action': 'tao::pegtl::nothing'}
+                   'types': ', '.join(types), 'selname': 'tao::pegtl::parse_tree::internal::store_all', 'action': 'tao::pegtl::nothing', 'control': ''}
 
 
 HARNESS = r'''/* generated harness — C12: tree returned by the real parse_tree::parse<> vs the surviving derivation of the selected rules */
